@@ -33,9 +33,69 @@ type c10Case struct {
 	VOD       bool   `json:"vod"`
 	AudioLead int    `json:"audio_lead_ms"` // >0: audio starts that much before the video (and is multiplexed first); <0: after
 	NSeg      int    `json:"nseg"`
+	Video     string `json:"video,omitempty"` // fMP4 video codec: "" = h264, h265 (announced as hvc1), h265:hev1, av1, vp9
+	Audio     string `json:"audio,omitempty"` // fMP4 audio codec: "" = aac, opus
+}
+
+func c10IsVideo(kind string) bool {
+	switch kind {
+	case "h264", "h265", "av1", "vp9":
+		return true
+	}
+	return false
+}
+
+func (c c10Case) videoKind() string {
+	if c.Video == "" {
+		return "h264"
+	}
+	return strings.TrimSuffix(c.Video, ":hev1")
+}
+
+func (c c10Case) audioKind() string {
+	if c.Audio == "" {
+		return "aac"
+	}
+	return c.Audio
+}
+
+// codecsAttr is the CODECS attribute a packager would announce for the stream.
+func (c c10Case) codecsAttr() string {
+	v := map[string]string{"h264": "avc1.42c028", "h265": "hvc1.1.6.L93.B0", "av1": "av01.0.08M.08", "vp9": "vp09.00.10.08"}[c.videoKind()]
+	if c.Video == "h265:hev1" {
+		v = "hev1.1.6.L93.B0"
+	}
+	a := map[string]string{"aac": "mp4a.40.2", "opus": "opus"}[c.audioKind()]
+	return v + "," + a
+}
+
+// c10VideoData builds one access unit / temporal unit / frame of the given codec carrying seq.
+func c10VideoData(kind string, seq int, sync bool) [][]byte {
+	tail := []byte{byte(seq >> 8), byte(seq), 0x11}
+	switch kind {
+	case "h265":
+		if sync {
+			return [][]byte{h265Params[0].vps, h265Params[0].sps, h265Params[0].pps, append([]byte{19 << 1, 0x01}, tail...)}
+		}
+		return [][]byte{append([]byte{1 << 1, 0x01}, tail...)}
+	case "av1":
+		if sync {
+			return [][]byte{av1Params[0].seqHdr, append([]byte{6 << 3}, tail...)}
+		}
+		return [][]byte{append([]byte{6 << 3}, tail...)}
+	case "vp9":
+		if sync {
+			return [][]byte{append(bytes.Clone(vp9Params[0].keyHdr), tail...)}
+		}
+		return [][]byte{append([]byte{0x86, 0x00}, tail...)}
+	}
+	return sVideoData(seq, sync, sync)
 }
 
 func (c c10Case) String() string {
+	if c.Video != "" || c.Audio != "" {
+		return fmt.Sprintf("%s[%s] base=%d tracks=%s bframes=%v frags=%d range=%v pdt=%v vod=%v audiolead=%dms nseg=%d", c.Container, c.codecsAttr(), c.Base, c.Tracks, c.BFrames, c.Frags, c.Range, c.PDT, c.VOD, c.AudioLead, c.NSeg)
+	}
 	return fmt.Sprintf("%s base=%d tracks=%s bframes=%v frags=%d range=%v%s pdt=%v vod=%v audiolead=%dms nseg=%d", c.Container, c.Base, c.Tracks, c.BFrames, c.Frags, c.Range, map[bool]string{true: "(implicit offsets)"}[c.Implicit], c.PDT, c.VOD, c.AudioLead, c.NSeg)
 }
 
@@ -68,20 +128,24 @@ func c10Build(cs c10Case) (*c10Stream, error) {
 		rate int
 	}
 	audioRates := []int{48000, 44100, 32000}
+	vk, ak := cs.videoKind(), cs.audioKind()
+	if ak == "opus" {
+		audioRates = []int{48000, 48000, 48000}
+	}
 	var layout [][]trk // per rendition
 	switch cs.Tracks {
 	case "v":
-		layout = [][]trk{{{"h264", 90000}}}
+		layout = [][]trk{{{vk, 90000}}}
 	case "a":
-		layout = [][]trk{{{"aac", 48000}}}
+		layout = [][]trk{{{ak, 48000}}}
 	case "va":
-		layout = [][]trk{{{"h264", 90000}, {"aac", 44100}}}
+		layout = [][]trk{{{vk, 90000}, {ak, audioRates[1]}}}
 	case "av":
-		layout = [][]trk{{{"aac", 44100}, {"h264", 90000}}}
+		layout = [][]trk{{{ak, audioRates[1]}, {vk, 90000}}}
 	case "v+a", "v+aa", "v+aaa":
-		layout = [][]trk{{{"h264", 90000}}}
+		layout = [][]trk{{{vk, 90000}}}
 		for i := 0; i < len(cs.Tracks)-2; i++ {
-			layout = append(layout, []trk{{"aac", audioRates[i]}})
+			layout = append(layout, []trk{{ak, audioRates[i]}})
 		}
 	}
 	seq := 0
@@ -97,11 +161,11 @@ func c10Build(cs c10Case) (*c10Stream, error) {
 		for j := 0; j < cs.NSeg; j++ {
 			var units []sUnit
 			for ti, t := range lr {
-				if t.kind == "h264" {
+				if c10IsVideo(t.kind) {
 					// 4 frames of 250 ms; with B-frames the decode order is I P B B with presentation offsets
 					for k := 0; k < 4; k++ {
 						t90 := cs.Base + int64(j)*90000 + int64(k)*22500
-						u := sUnit{Track: ti, Sync: k == 0, Data: sVideoData(seq, k == 0, k == 0), Dur: 22500}
+						u := sUnit{Track: ti, Sync: k == 0, Data: c10VideoData(t.kind, seq, k == 0), Dur: 22500}
 						seq++
 						u.DTS = t90
 						if cs.BFrames {
@@ -110,21 +174,26 @@ func c10Build(cs c10Case) (*c10Stream, error) {
 						units = append(units, u)
 					}
 				} else {
-					// audio units of 1024 samples covering [j, j+1) s, shifted by the audio lead
+					// audio units of 1024 samples (Opus: 960) covering [j, j+1) s, shifted by the audio lead
 					rate := int64(t.rate)
 					lead := int64(cs.AudioLead) * 90 // 90 kHz ticks
-					first := (int64(j)*rate + 1023) / 1024
-					last := (int64(j+1)*rate + 1023) / 1024
+					spu := int64(1024)
+					first0 := byte(0x21)
+					if t.kind == "opus" {
+						spu, first0 = 960, opusTOC(960)
+					}
+					first := (int64(j)*rate + spu - 1) / spu
+					last := (int64(j+1)*rate + spu - 1) / spu
 					for a := first; a < last; a++ {
-						t90 := cs.Base - lead + a*1024*90000/rate
-						u := sUnit{Track: ti, Sync: true, Data: [][]byte{{0x21, byte(seq >> 8), byte(seq), byte(ri)}}}
+						t90 := cs.Base - lead + a*spu*90000/rate
+						u := sUnit{Track: ti, Sync: true, Data: [][]byte{{first0, byte(seq >> 8), byte(seq), byte(ri)}}}
 						seq++
 						if ts {
 							u.DTS = t90
-							u.Dur = 1024 * 90000 / rate
+							u.Dur = spu * 90000 / rate
 						} else {
-							u.DTS = scaleTicks(cs.Base-lead, t.rate) + a*1024
-							u.Dur = 1024
+							u.DTS = scaleTicks(cs.Base-lead, t.rate) + a*spu
+							u.Dur = spu
 						}
 						units = append(units, u)
 					}
@@ -134,17 +203,21 @@ func c10Build(cs c10Case) (*c10Stream, error) {
 			if cs.PDT {
 				// date-time of a segment = wall-clock time of its first leading-track unit (consistent with media time)
 				d := c10T0.Add(time.Duration(j) * time.Second)
-				if lr[0].kind != "h264" && len(lr) == 1 {
+				if !c10IsVideo(lr[0].kind) && len(lr) == 1 {
 					rate := int64(lr[0].rate)
-					first := (int64(j)*rate + 1023) / 1024
-					ns := first * 1024 * 1_000_000_000 / rate
+					spu := int64(1024)
+					if lr[0].kind == "opus" {
+						spu = 960
+					}
+					first := (int64(j)*rate + spu - 1) / spu
+					ns := first * spu * 1_000_000_000 / rate
 					d = c10T0.Add(time.Duration(ns))
 				}
 				seg.DateTime = &d
 			}
 			if ts {
 				// file order: by time, audio first when it leads
-				ordered := orderTS(units, lr[0].kind != "h264" || cs.AudioLead > 0)
+				ordered := orderTS(units, !c10IsVideo(lr[0].kind) || cs.AudioLead > 0)
 				seg.Frags = [][]sUnit{ordered}
 				b, err := buildTS(r.tracks, wrapTS(ordered))
 				if err != nil {
@@ -194,6 +267,10 @@ func c10Build(cs c10Case) (*c10Stream, error) {
 		}
 		r.all = append([]byte{}, r.init...)
 		for _, s := range r.segs {
+			if cs.Range && !cs.Implicit {
+				// explicit offsets need not be contiguous: unrelated bytes sit between the sub-ranges
+				r.all = append(r.all, 0xEE, 0xEE, 0xEE, 0xEE, 0xEE, 0xEE, 0xEE)
+			}
 			r.offs = append(r.offs, len(r.all))
 			r.all = append(r.all, s.Body...)
 		}
@@ -271,7 +348,7 @@ func (st *c10Stream) server() *stubServer {
 				}
 				fmt.Fprintf(&b, "#EXT-X-MEDIA:TYPE=AUDIO,GROUP-ID=\"aud\",NAME=\"lang%d\",LANGUAGE=\"l%d\",DEFAULT=%s,AUTOSELECT=YES,URI=\"r%d.m3u8\"\n", ri, ri, def, ri)
 			}
-			b.WriteString("#EXT-X-STREAM-INF:BANDWIDTH=100000,CODECS=\"avc1.42c028,mp4a.40.2\",AUDIO=\"aud\"\nr0.m3u8\n")
+			fmt.Fprintf(&b, "#EXT-X-STREAM-INF:BANDWIDTH=100000,CODECS=\"%s\",AUDIO=\"aud\"\nr0.m3u8\n", st.cs.codecsAttr())
 			return srvResp{Status: 200, Body: []byte(b.String())}
 		}
 		var ri, j int
@@ -323,7 +400,7 @@ func (st *c10Stream) expect() []c10Exp {
 	lead := st.rends[0]
 	lti := 0
 	for i, t := range lead.tracks {
-		if t.Kind == "h264" {
+		if c10IsVideo(t.Kind) {
 			lti = i
 			break
 		}
@@ -440,7 +517,7 @@ func c10RunCase(c *vh.Ctx, cs c10Case) (sig, msg, outcome string) {
 					}
 				}
 				if head {
-					class = fmt.Sprintf("unit-count/head-dropped:%s:%s:leading=%v", cs.Container, e.kind, i == 0 && (e.kind == "h264" || !strings.Contains(cs.Tracks, "v")))
+					class = fmt.Sprintf("unit-count/head-dropped:%s:%s:leading=%v", cs.Container, e.kind, i == 0 && (c10IsVideo(e.kind) || !strings.Contains(cs.Tracks, "v")))
 					c10Extra = append(c10Extra, [2]string{class, fmt.Sprintf("track %d (%s): %d units delivered, the downloaded segments hold %d deliverable ones: the first %d (at or after the time origin) are missing\ncase: %s", i, e.kind, len(got), len(e.units), k, cs.String())})
 					e.units = e.units[k:]
 				}
@@ -452,10 +529,14 @@ func c10RunCase(c *vh.Ctx, cs c10Case) (sig, msg, outcome string) {
 		}
 		for k, eu := range e.units {
 			g := got[k]
-			if !dataEqual(stripAUD(g.Data), eu.data) {
+			gdata := stripAUD(g.Data)
+			if e.kind == "av1" {
+				gdata = av1StripSizes(g.Data)
+			}
+			if !dataEqual(gdata, eu.data) {
 				return fail("unit-payload", fmt.Sprintf("track %d unit %d payload %x, want %x", i, k, g.Data, eu.data))
 			}
-			isVideo := e.kind == "h264"
+			isVideo := c10IsVideo(e.kind) && e.kind != "av1" && e.kind != "vp9" // AV1 / VP9 callbacks carry one time stamp
 			gd := g.DTS
 			if !isVideo {
 				gd = g.PTS // audio callbacks carry one time stamp
@@ -528,6 +609,19 @@ func c10Cases(tier string) map[string][]c10Case {
 				}
 			}
 		}
+	}
+	// codec families of the fMP4 variants (CODECS as a packager announces them; H265 under both sample-entry names)
+	for _, v := range []string{"h265", "h265:hev1", "av1", "vp9"} {
+		for _, a := range []string{"", "opus"} {
+			for _, tracks := range []string{"v", "va", "v+a", "v+aa"} {
+				for _, pdt := range []bool{false, true} {
+					out["fmp4 codecs"] = append(out["fmp4 codecs"], c10Case{Container: "fmp4", Base: 540000, Tracks: tracks, Frags: 1, PDT: pdt, VOD: true, NSeg: 3, Video: v, Audio: a})
+				}
+			}
+		}
+	}
+	for _, tracks := range []string{"a", "va", "v+a"} {
+		out["fmp4 codecs"] = append(out["fmp4 codecs"], c10Case{Container: "fmp4", Base: 0, Tracks: tracks, Frags: 3, PDT: true, VOD: false, NSeg: 4, Audio: "opus"})
 	}
 	// many fragments per segment
 	for _, n := range []int{10, 11, 12, 16} {
